@@ -31,6 +31,16 @@ fn value_lists(max: usize) -> Vec<Vec<Vec<u8>>> {
     out
 }
 
+/// values for messages: long ones are abbreviated
+fn brief(vs: &[Vec<u8>]) -> String {
+    let one = |v: &Vec<u8>| if v.len() <= 16 { format!("{:?}", v) } else { format!("[{} octets: {}..{}]", v.len(), ber::hex(&v[..4]), ber::hex(&v[v.len() - 4..])) };
+    format!("[{}]", vs.iter().map(one).collect::<Vec<_>>().join(", "))
+}
+
+fn brief_s(vs: &[String]) -> String {
+    brief(&vs.iter().map(|s| s.as_bytes().to_vec()).collect::<Vec<_>>())
+}
+
 fn entry_tlv(dn: &str, attrs: &[(String, Vec<Vec<u8>>)]) -> Tlv {
     Tlv::cons(
         APP,
@@ -81,29 +91,29 @@ fn judge(rep: &Reporter, dn: &str, attrs: &[(String, Vec<Vec<u8>>)], form: LenFo
         let shape = if vs.is_empty() { "no-values" } else if all_utf8 { "all-utf8" } else if some_utf8 { "mixed" } else { "all-binary" };
         match (in_text, in_bin) {
             (Some(_), Some(_)) => {
-                rep.violation(&format!("entry:in-both-maps:{}", shape), &format!("attribute {} with values {:?} is in both maps: {:?} / {:?}", name, vs, in_text, in_bin), replay());
+                rep.violation(&format!("entry:in-both-maps:{}", shape), &format!("attribute {} with values {} is in both maps", name, brief(vs)), replay());
             }
             (None, None) => {
-                rep.violation(&format!("entry:in-no-map:{}", shape), &format!("attribute {} with values {:?} is in neither map", name, vs), replay());
+                rep.violation(&format!("entry:in-no-map:{}", shape), &format!("attribute {} with values {} is in neither map", name, brief(vs)), replay());
             }
             (Some(tv), None) => {
                 let want: Option<Vec<String>> = vs.iter().map(|v| String::from_utf8(v.clone()).ok()).collect();
                 if !all_utf8 {
-                    rep.violation(&format!("entry:binary-in-text-map:{}", shape), &format!("attribute {} has non-UTF-8 values {:?} but is in the text map as {:?}", name, vs, tv), replay());
+                    rep.violation(&format!("entry:binary-in-text-map:{}", shape), &format!("attribute {} has non-UTF-8 values {} but is in the text map as {}", name, brief(vs), brief_s(tv)), replay());
                 } else if Some(tv.clone()) != want {
-                    rep.violation(&format!("entry:text-values:{}", shape), &format!("attribute {}: text values {:?} != {:?} (order matters)", name, tv, want), replay());
+                    rep.violation(&format!("entry:text-values:{}", shape), &format!("attribute {}: text values {} != {} (order matters)", name, brief_s(tv), brief(vs)), replay());
                 }
             }
             (None, Some(bv)) => {
                 if all_utf8 {
-                    rep.violation(&format!("entry:text-in-binary-map:{}", shape), &format!("attribute {} has only UTF-8 values {:?} but is in the binary map", name, vs), replay());
+                    rep.violation(&format!("entry:text-in-binary-map:{}", shape), &format!("attribute {} has only UTF-8 values {} but is in the binary map", name, brief(vs)), replay());
                 } else {
                     let mut a = bv.clone();
                     let mut b = vs.clone();
                     a.sort();
                     b.sort();
                     if a != b {
-                        rep.violation(&format!("entry:binary-multiset:{}", shape), &format!("attribute {}: binary values {:?} are not the multiset {:?}", name, bv, vs), replay());
+                        rep.violation(&format!("entry:binary-multiset:{}", shape), &format!("attribute {}: binary values {} are not the multiset {}", name, brief(bv), brief(vs)), replay());
                     }
                 }
             }
@@ -155,11 +165,42 @@ pub fn run(tier: Tier) -> i32 {
             );
         });
     }
+    // attribute descriptions with options, an OID, mixed case: the name has no say in the classification
+    let odd_names = ["userCertificate;binary", "cn;lang-de", "x;BINARY;y-1", "1.2.840.113556.1.4.1", "jpegPhoto;binary;x-a", "OBJECTCLASS", "binary"];
+    par_for(nl * odd_names.len() as u64, |i| {
+        let n = odd_names[(i / nl) as usize];
+        let l = &lists[(i % nl) as usize];
+        judge(&rep, "cn=n", &[(n.to_string(), l.clone())], LenForm::Minimal, &evals, &mixed);
+        judge(&rep, "cn=n", &[("cn".to_string(), vec![b"x".to_vec()]), (n.to_string(), l.clone()), ("sn".to_string(), vec![vec![0xfe]])], LenForm::Minimal, &evals, &mixed);
+    });
+    // long values: sizes around every BER length-form boundary, valid UTF-8 (ASCII / two-byte
+    // characters) and invalid (one stray octet at the start, in the middle, at the end)
+    let sizes = [127usize, 128, 255, 256, 65534, 65535, 65536, 65537, 70001];
+    let mut long_vals: Vec<Vec<u8>> = vec![];
+    for &n in &sizes {
+        long_vals.push(vec![b'a'; n]);
+        long_vals.push("é".repeat(n / 2).into_bytes());
+        for pos in [0usize, n / 2, n - 1] {
+            let mut v = vec![b'a'; n];
+            v[pos] = 0xff;
+            long_vals.push(v);
+        }
+    }
+    let shorts = values();
+    let nlv = long_vals.len() as u64;
+    par_for(nlv, |i| {
+        let lv = &long_vals[i as usize];
+        judge(&rep, "cn=long", &[("cn".to_string(), vec![lv.clone()])], LenForm::Minimal, &evals, &mixed);
+        for sv in &shorts {
+            judge(&rep, "cn=long", &[("cn".to_string(), vec![lv.clone(), sv.clone()])], LenForm::Minimal, &evals, &mixed);
+            judge(&rep, "cn=long", &[("cn".to_string(), vec![sv.clone(), lv.clone()]), ("sn".to_string(), vec![sv.clone()])], LenForm::Minimal, &evals, &mixed);
+        }
+    });
     let ev = evals.load(Ordering::Relaxed);
     let c = cov(vec![
         ("evaluations", json!(ev)),
         ("distinct_nontrivial", json!(mixed.load(Ordering::Relaxed))),
-        ("rule", json!("every entry with 0-2 attributes (and a stride subset with 3) whose value lists are all sequences of length 0..=3 over {\"\", a, é, ff, c3, 61 80}, DN in {\"\", cn=é}; single-attribute entries additionally in 4 length forms; distinct by construction; non-trivial = at least one attribute mixes valid and invalid UTF-8 values")),
+        ("rule", json!("every entry with 0-2 attributes (and a stride subset with 3) whose value lists are all sequences of length 0..=3 over {\"\", a, é, ff, c3, 61 80}, DN in {\"\", cn=é}; single-attribute entries additionally in 4 length forms; every value list under 7 attribute descriptions with options / OID / upper case (alone and between two other attributes); values of 127..70001 octets around every length-form boundary, valid and invalid UTF-8, alone and next to every short value; distinct by construction; non-trivial = at least one attribute mixes valid and invalid UTF-8 values")),
         ("value_lists", json!(nl)),
         ("samples", json!([ber::hex(&ber::encode(&entry_tlv("cn=é", &[("cn".into(), vec![vec![0xff], b"a".to_vec()])])))])),
         ("exhaustive", json!(true)),
